@@ -49,6 +49,20 @@ class C09(Prop):
             ops = ["ctx:none", "prepare:noopt", "exec:0"]
             out.append(Case("run", {"script": vlib.hx(src), "objs": "N", "ops": ";".join(ops)}, "finishers-" + name,
                             expect={"o2.class": "ok", "o2.value": val}, note=src))
+        # a deadline RENEWED on a long-lived evaluator: SetContext, then Prepare again (same script, same flags) - the new context must
+        # be the one in force, whether the old one had no deadline, a longer one, or had already expired
+        from gen import enc_struct
+        for (name, body) in [("while", "while (Spin) { n = 1; } return 7;"), ("in-function", "function f() { while (Spin) { k = 1; } return 7; } return f();"),
+                             ("foreach", "foreach x in [1, 2] { while (Spin) { k = x; } } return 7;")]:
+            objs = enc_struct([("Spin", False)]) + ";" + enc_struct([("Spin", True)])
+            for mode in ("opt", "noopt"):
+                for d1, d2 in [("none", 50), (100000, 20), (1, "none"), (1, 100000), (30, 30)]:
+                    first = "exec:1" if d1 == 1 else "exec:0"
+                    ops = ["ctx:%s" % d1, "prepare:" + mode, first, "ctx:%s" % d2, "prepare:" + mode, "exec:1" if d2 not in ("none", 100000) else "exec:0"]
+                    exp = {"o2.class": "timeout" if d1 == 1 else "ok", "o5.class": "ok" if d2 in ("none", 100000) else "timeout"}
+                    if d2 in ("none", 100000):
+                        exp["o5.value"] = "i7"
+                    out.append(Case("run", {"script": vlib.hx(body), "objs": objs, "ops": ";".join(ops)}, "renewed-deadline-" + name, expect=exp, note=body))
         # context set AFTER Prepare does not reach the machine (the property says: given before Prepare)
         return out
 
